@@ -17,14 +17,16 @@ RULE = ("Engine F: generated factories (work_capacity 1-3, 1-3 in/out edges, all
         "pallet one draw, nothing emitted before t_pull + d. Combiner: one draw per pallet, pallet not pushed before "
         "max(last ingredient pulled, previous pallet pushed) + d. Non-trivial: work_capacity >= 2 with >= 2 items resident "
         "at once, or an item that had to wait for room, or pulls from >= 2 in-edges in one instant.")
+RULE += (" Two in ten flow-shaped factories also contain rework loops (a machine feeding itself or a machine of an earlier layer through a "
+         "Buffer / Fleet edge with a strictly positive delay / transit time, so no zero-time cycle exists); machine oracles work per visit, not per item.")
 ASSUMPTIONS = ["conveyor out-edges: only the 'not before t_pull+d' half and the waiting-worker invariant (admission depends on spacing/stall)",
                "discards are visible only through num_item_discarded"]
 
-PROFILE = {"conveyors": True, "conveyor_to_sink": True, "pack": 3, "finite": 3}
+PROFILE = {"cycles": 2, "conveyors": True, "conveyor_to_sink": True, "pack": 3, "finite": 3}
 
 
 def examples(tier):
-    return 4000 if tier == "quick" else 80000
+    return 12000 if tier == "quick" else 240000
 
 
 def strategy(tier):
@@ -113,7 +115,7 @@ class ProcessingOracle(FOracle):
             tp = self.book.t_pull.get((nid, id(e.item)))
             if tp is None:
                 return
-            j = next((i for i, p in enumerate(self.book.pulls[nid]) if p[2] is e.item), None)
+            j = self.book.pull_idx.get((nid, id(e.item)))      # the item's current visit (it may come round again)
             d = self.delay_of(f, nid, j) if j is not None else None
             if d is not None and e.t < tp[0] + d:
                 self.v(nid, ("Machine", "early_push"), "%s pushed %s at %s, pulled at %s with delay %s (ready %s)" % (
@@ -201,8 +203,8 @@ class ProcessingOracle(FOracle):
             P = len(set(id(t.proc) for t in live))
             if kind == "Machine":
                 R = 0
-                for (item, tp, kp, d, tr) in self.machine_ready_times(f, nid):
-                    if tr is not None and tr <= now and (nid, id(item)) not in self.book.t_push:
+                for j, (item, tp, kp, d, tr) in enumerate(self.machine_ready_times(f, nid)):
+                    if tr is not None and tr <= now and (nid, j) not in self.book.push_of_pull:
                         R += 1
             elif kind == "Splitter":
                 pl = self.book.pulls[nid]
